@@ -29,7 +29,7 @@ Definition py_truthy (v : pyval) : bool :=
   | PInt z => negb (Z.eqb z 0)
   | PStr s => negb (is_empty s)
   | PList l => match l with [] => false | _ => true end
-  | PObj _ => true
+  | PObj f => match f with [] => false | _ => true end   (* an empty dict is falsy; encoded objects have fields *)
   | PExc _ => false
   | PErr => false
   end.
